@@ -668,7 +668,27 @@ func (h *httpServerHandler) handleGet(ctx context.Context, w http.ResponseWriter
 
 	// If there's Last-Event-ID, try to resume stream
 	if lastEventID != "" {
+		// The notice is written by this goroutine, which cannot watch connCtx meanwhile. If the
+		// peer does not read, the write blocks and the teardown below would never be reached:
+		// a watcher expires the write when the stream is replaced or ends.
+		rc := http.NewResponseController(w)
+		resumed := make(chan struct{})
+		watcherDone := make(chan struct{})
+		go func() {
+			defer close(watcherDone)
+			select {
+			case <-connCtx.Done():
+				_ = rc.SetWriteDeadline(time.Now())
+			case <-resumed:
+			}
+		}()
 		h.handleStreamResumption(connCtx, conn, session.GetID())
+		close(resumed)
+		<-watcherDone
+		if connCtx.Err() != nil {
+			// Lift the deadline again so that the response can end in order.
+			_ = rc.SetWriteDeadline(time.Time{})
+		}
 	}
 
 	// Wait for connection to close
@@ -704,7 +724,13 @@ func (h *httpServerHandler) sendNotificationToGetSSE(sessionID string, notificat
 	if !ok {
 		return fmt.Errorf("%w: %s", ErrSessionNotFound, sessionID)
 	}
+	return h.writeNotificationToGetSSE(conn, sessionID, notification)
+}
 
+// writeNotificationToGetSSE writes a notification to one particular GET SSE connection.
+func (h *httpServerHandler) writeNotificationToGetSSE(
+	conn *getSSEConnection, sessionID string, notification *JSONRPCNotification,
+) error {
 	conn.writeLock.Lock()
 	defer conn.writeLock.Unlock()
 	if conn.closed {
@@ -767,8 +793,9 @@ func (h *httpServerHandler) handleStreamResumption(ctx context.Context, conn *ge
 	notifBytes, _ := json.Marshal(notification)
 	h.logger.Infof("Preparing to send stream resumption notification: %s", string(notifBytes))
 
-	// Send notification
-	err := h.sendNotificationToGetSSE(sessionID, jsonNotification)
+	// Send notification on the stream that resumed (not through the session's stream table: a
+	// newer stream may have been registered meanwhile, and the notice is not about that one)
+	err := h.writeNotificationToGetSSE(conn, sessionID, jsonNotification)
 	if err != nil {
 		h.logger.Infof("Failed to send stream resumption notification: %v", err)
 	}
